@@ -3,7 +3,8 @@
 case lines (space separated):
   full <fmt> <ch> <pr> <w> <h> <pad> <lim> <pos0> <len> <fault|-> <clamp> <chunk>
   rect <fmt> <ch> <pr> <W> <H> <x> <y> <w> <h> <pad> <lim> <pos0> <len> <fault|-> <clamp> <chunk>
-`lim` is a number, `d` (default), `n` (the need of the call) or `n-1`.  `pad` (row pitch padding of
+`lim` is a number, `d` (default), `n` (the need of the call) or `n-1`; `fault` is an absolute offset,
+optionally prefixed with `t` (reported only once), or `z<k>` (`Ok(0)` once at offset k).  `pad` (row pitch padding of
 the output) and `chunk` (short-read pattern of the reader) do not influence the model: by
 `C06.chunking_irrelevant` the result is the same for every pattern, so the model runs with full reads.
 result: `<res> <final pos> lim=<limit used> <merged trace>` -/
@@ -70,11 +71,16 @@ def runC06 (line : String) : String :=
       let p := plan f c call
       match limitOf lim (planNeed p), pos0.toNat?, len.toNat?, clamp.toNat? with
       | some limit, some pos0, some len, some clamp =>
+        -- `t<k>`: the error is reported only once; the decode stops at the first error, so the model's
+        -- outcome is that of the persistent error at `k`
+        let eofOnce : Option Nat := if fault.startsWith "z" then (fault.drop 1).toString.toNat? else none
+        let fault := if fault.startsWith "z" then "-" else fault
+        let fault := if fault.startsWith "t" then (fault.drop 1).toString else fault
         let fault? : Option (Option Nat) := if fault = "-" then some none else fault.toNat?.map some
         match fault? with
         | none => "bad-case"
         | some fault =>
-          let e : Env := { len := len, fault := fault, clampSeek := clamp ≠ 0 }
+          let e : Env := { len := len, fault := fault, clampSeek := clamp ≠ 0, eofOnce := eofOnce }
           let (r, st) := run e [] p pos0 limit
           s!"{resName r} {st.pos} lim={limit} {traceStr st.log}"
       | _, _, _, _ => "bad-case"
